@@ -156,13 +156,31 @@ def run_property(prop, tier, seed):
                 r['ob'], f['cls'], f['id'], status, f['replay']))
     if not violations:
         inconclusive += unconfirmed
+    # engine K cross-check (thorough tier): the same harness functions under Kani must get the same verdict
+    kani_res = {}
+    if tier == 'thorough' and not only and not os.environ.get('VERIF_NO_KANI'):
+        import kani
+        fams = set(checks.PROPS[prop]['fams'].split())
+        kani_res = kani.run_for(fams)
+        lverdict = {}
+        for r in results:
+            lverdict.setdefault((r['family'], tuple(r.get('params') or [])), []).append(r['verdict'] == 'pass' or (r['verdict'] == 'cex' and not r.get('relevant_fails')))
+        for pr in kani.SUBSET:
+            if pr['name'] not in kani_res:
+                continue
+            l_ok = all(lverdict.get((pr['family'], tuple(pr['caps'])), [True]))
+            k = kani_res[pr['name']]
+            if k.startswith('error'):
+                inconclusive.append('engine K: %s: %s' % (pr['name'], k))
+            elif (k == 'pass') != l_ok and not violations:
+                inconclusive.append('engines disagree on %s: L=%s K=%s (neither is preferred: investigate)' % (pr['name'], 'pass' if l_ok else 'fail', k))
     for k, r, f in known_hits:
         log('KNOWN-FINDING: property=%s %s (harness %s, check %s:%s)' % (prop, k.get('what', ''), r['harness'], f['cls'], f['id']))
     for r, f, path in violations:
         meaning = checks.IDS.get(f['id'], (None, f['desc']))[1] if f['cls'] == 'VF' else f['desc']
         log('VIOLATION property=%s replay=%s' % (prop, path))
         log('  harness=%s profile=%s check=%s:%s (%s)' % (r['harness'], r['profile'], f['cls'], f['id'], meaning))
-    write_evidence(prop, tier, seed, results, builds, violations, known_hits, inconclusive, time.time() - t0)
+    write_evidence(prop, tier, seed, results, builds, violations, known_hits, inconclusive, time.time() - t0, kani_res)
     if violations:
         return 1
     if inconclusive:
@@ -173,7 +191,7 @@ def run_property(prop, tier, seed):
     return 0
 
 
-def write_evidence(prop, tier, seed, results, builds, violations, known_hits, inconclusive, wall):
+def write_evidence(prop, tier, seed, results, builds, violations, known_hits, inconclusive, wall, kani_res=None):
     os.makedirs(os.path.join(VERIF, 'evidence'), exist_ok=True)
     passed = [r for r in results if r['verdict'] == 'pass']
     # an obligation also counts as discharged for this property if its only failures belong to other properties
@@ -218,6 +236,8 @@ def write_evidence(prop, tier, seed, results, builds, violations, known_hits, in
             'solver_seconds': round(sum(r.get('solver_secs', 0) for r in results), 1),
             'sat_variables_max': max([r.get('stats', {}).get('variables', 0) for r in results] or [0]),
             'inconclusive': inconclusive[:50],
+            'engine_K': {'proofs': kani_res or {}, 'agree_with_engine_L': bool(kani_res) and not any('engines disagree' in x or 'engine K' in x for x in inconclusive),
+                         'note': 'Kani 0.68 (MIR -> goto, dev profile) on the same generic harness functions; thorough tier only; cannot unwind, so post-panic behaviour is engine L only'},
             'known_findings_hit': [k.get('what') for k, _, _ in known_hits],
             'allocator_symbols_referenced': sorted(x for x in stubs if 'alloc' in x),
             'repo': repo_state(),
